@@ -27,7 +27,7 @@ for w in (1, 6, 4096, 65535):
 # memory / time even for 0 fields with concrete names (the header offsets stay symbolic through strlen).
 
 prop("C07",
-     residual="VSsetfields offsets/ivsize, VSread/VSwrite gather-scatter, VSfpack and the vpackvs/vunpackvs round trip are NOT decided "
+     residual="(round 3, c07_acc.py: the VF*/VS* inquiry functions per call and VSfpack bounded over constant three-field schemas are decided.)  VSsetfields offsets/ivsize, VSread/VSwrite gather-scatter, VSfpack for symbolic schemas and the vpackvs/vunpackvs round trip are NOT decided "
               "(attempted, not tractable with cbmc on this image); append across linked blocks, detach/re-attach, "
               "transfer-buffer boundary (VDATA_BUFFER_MAX); field-name parsing (vparse.c scanattrs) is a trusted stub",
      assumptions=["A-SCANATTRS: vparse.c scanattrs is not verified (trusted stub: FAIL or >= 1 NUL-terminated tokens); "
